@@ -1028,6 +1028,11 @@ private theorem dispatch_mono {pb pb' : PB} (h : PBle pb pb') (tab st refs p b r
   rw [c9] at H
   exact H
 
+/-- public name of `dispatch_mono` (the short name is also declared by `Lemmas/BlockFuel`, so it is private here) -/
+theorem dispatch_mono_ref {pb pb' : PB} (h : PBle pb pb') (tab st refs p b rest out) :
+    dispatch tab pb st refs p b rest = some out → dispatch tab pb' st refs p b rest = some out :=
+  dispatch_mono h tab st refs p b rest out
+
 theorem parseBlocks_mono (tab : Nat) (f : Nat) : PBle (parseBlocks tab f) (parseBlocks tab (f + 1)) := by
   induction f with
   | zero =>
